@@ -159,7 +159,8 @@ def runInj (ws : List String) : String :=
   match ws with
   | fn :: rest =>
     if rest.length < 7 then "bad-op" else
-    if !(fn == "read" || fn == "write" || fn == "close" || fn == "handshake") then "bad-op" else
+    if !(fn == "read" || fn == "write" || fn == "close" || fn == "handshake" || fn == "hswrite" || fn == "hsread")
+      then "bad-op" else
     let kv := kvOf (rest.take 7)
     let role := kvGet kv "role"
     let len : Option Nat := match kvGet kv "len" with
@@ -181,6 +182,13 @@ def runInj (ws : List String) : String :=
       let c : Conn := { roleValid := true, isServer := role == "s", hc, eofNoNotify := ef,
                         doAbort := ab, verifyName := vn, peerCert := false, nameOk := false,
                         err := .unchanged }
+      if fn == "hswrite" || fn == "hsread" then
+        -- tls_handshake, then one I/O call on the same context whatever the handshake said
+        let h := tlsHandshake c script
+        let o := if fn == "hswrite" then tlsWrite h.st h.rest len else tlsRead h.st h.rest len
+        s!"rv={h.rv},{o.rv} ## st={b01 o.st.hc}{b01 o.st.eofNoNotify}{b01 o.st.doAbort} " ++
+        s!"used={script.length - o.rest.length} err={o.st.err.str}"
+      else
       let o : Out :=
         if fn == "read" then tlsRead c script len
         else if fn == "write" then tlsWrite c script len
@@ -297,8 +305,9 @@ def runHs (ws : List String) : String :=
           let h1 := hashStream n (s ^^^ 0xC2500000C2500000) 0 0 0xcbf29ce484222325
           let h2 := hashStream n (s ^^^ 0x52C0000052C00000) 0 0 0xcbf29ce484222325
           let tail := if cut == 0 then "eof=0 close=0,0 cut=-" else "eof=- close=-,- cut=err"
-          s!"est=1 ver={ver} rvs=ok want=ok data=ok h={hex16 h1},{hex16 h2} {tail}"
-        else "est=0 ver=- rvs=ok want=ok data=- h=-,- eof=- close=-,- cut=-"
+          s!"est=1 ver={ver} rvs=ok want=ok data=ok h={hex16 h1},{hex16 h2} {tail} after=ok"
+        -- refused: every later I/O call on the refused context fails again, nothing crosses (`refused_stays_refused`)
+        else "est=0 ver=- rvs=ok want=ok data=- h=-,- eof=- close=-,- cut=- after=ok"
       | _, _, _, _ => "bad-op"
     | _, _, _, _, _, _, _, _, _, _, _ => "bad-op"
   | _, _, _, _, _, _, _, _, _, _, _ => "bad-op"
